@@ -51,7 +51,7 @@ def build_harness(release=False):
 
 # ---------------------------------------------------------------------------
 # running the harness: a fatal signal is data (C01/C02), attributed to the marked case
-def run_drive(binary, args, out, wd, timeout=1800, max_crashes=8):
+def run_drive(binary, args, out, wd, timeout=1800, max_crashes=12):
     """runs `drive <args> --out out`; returns list of crashes [{'id', 'signal', 'stderr'}]"""
     marker = os.path.join(wd, 'marker.' + os.path.basename(out))
     crashes = []
@@ -84,6 +84,12 @@ def run_drive(binary, args, out, wd, timeout=1800, max_crashes=8):
         if len(crashes) >= max_crashes:
             log('too many crashes, giving up re-running')
             break
+    if crashes and os.path.exists(out):
+        # after giving up the last line may be incomplete: keep complete lines only
+        data = open(out, 'rb').read()
+        if not data.endswith(b'\n'):
+            data = data[:data.rfind(b'\n') + 1] if b'\n' in data else b''
+            open(out, 'wb').write(data)
     return crashes
 
 
